@@ -496,9 +496,10 @@ func writeReplay(p *Program, prop string, o *Obligation, opts SolveOpts) string 
 	dir := filepath.Join(outHome(), "replays", prop)
 	os.MkdirAll(dir, 0o755)
 	name := strings.NewReplacer("/", "_", " ", "_", "(", "", ")", "", "*", "P", ":", "_", "#", "-", "\"", "", "'", "", "[", "", "]", "", "|", "", "&", "", "<", "lt", ">", "gt", "=", "eq", ",", "", "!", "not", "~", "-", "$", "_").Replace(o.Name)
-	if len(name) > 120 {
-		name = name[:120]
+	if len(name) > 100 {
+		name = name[:100]
 	}
+	name += fmt.Sprintf("-%08x", fnv32(o.Name))
 	path := filepath.Join(dir, name+".json")
 	rep := TryReplay(p, o, opts)
 	doc := map[string]any{
@@ -516,4 +517,13 @@ func writeReplay(p *Program, prop string, o *Obligation, opts SolveOpts) string 
 	b, _ := json.MarshalIndent(doc, "", " ")
 	os.WriteFile(path, b, 0o644)
 	return path
+}
+
+func fnv32(s string) uint32 {
+	h := uint32(2166136261)
+	for i := 0; i < len(s); i++ {
+		h ^= uint32(s[i])
+		h *= 16777619
+	}
+	return h
 }
